@@ -334,7 +334,7 @@ Proof.
            ++ destruct (Hn3c _ Qb) as [_ [N1 _]]. apply Pos.eqb_neq in N1. rewrite N1 in Ea. apply Pos.eqb_neq in N1. apply N1. symmetry. exact Ea.
     + (* S2: nodes and columns *)
       destruct P2 as [Q1 [Q2 Q3]].
-      assert (Hcn3 : In n3 (nlist g)) by (apply (Q1 c Hc); rewrite Ecns; apply Mq; cbn; auto).
+      assert (Hcn3 : In n3 (nlist g)) by (apply (Q1 c Hc); rewrite Ecns; apply Mq; fold n0 n1 n2 n3; cbn [In]; tauto).
       assert (Base : forall n, In n (nlist g) -> fget [] (fset (ncol g1) n3 (lremove (ncs g1 n3) c)) n = if Pos.eqb n n3 then lremove (ncs g n3) c else ncs g n).
       { intros n Hn. rewrite fget_fset. destruct (Pos.eqb_spec n n3) as [->|N]; [rewrite (agree_ncs g g1 Ag n3 Hcn3); reflexivity|].
         exact (agree_ncs g g1 Ag n Hn). }
@@ -345,45 +345,289 @@ Proof.
         destruct (mem n L2) eqn:ML; [apply mem_In in ML|apply mem_false in ML].
         - rewrite In_sadd. destruct (Pos.eqb_spec n n3) as [->|N].
           + rewrite (In_lremove _ _ _ (Q2 n3 Hcn3)). split.
-            * intros [[A B]| ->]; [right; split; [apply Nx2; exact A|split; [exact A|intros [X _]; contradiction]]|left; auto].
-            * intros [[-> _]|[A [B C]]]; [right; reflexivity|left; split; [exact B|intros ->; apply C; auto]].
+            * intros [[A B]|E]; [right; split; [exact (Nx2 x A)|split; [exact A|intros [X _]; exact (B X)]]|left; split; [exact E|exact ML]].
+            * intros [[E _]|[A [B C]]]; [right; exact E|left; split; [exact B|intro X; apply C; split; [exact X|reflexivity]]].
           + split.
-            * intros [A| ->]; [right; split; [apply Nx2; exact A|split; [exact A|intros [_ X]; contradiction]]|left; auto].
-            * intros [[-> _]|[A [B C]]]; [right; reflexivity|left; exact B].
+            * intros [A|E]; [right; split; [exact (Nx2 x A)|split; [exact A|intros [_ X]; exact (N X)]]|left; split; [exact E|exact ML]].
+            * intros [[E _]|[A [B C]]]; [right; exact E|left; exact B].
         - destruct (Pos.eqb_spec n n3) as [->|N].
-          + exfalso. apply ML. apply ML2. auto.
+          + exfalso. apply ML. apply ML2. right. left. reflexivity.
           + split.
-            * intro A. right. split; [apply Nx2; exact A|split; [exact A|intros [_ X]; contradiction]].
-            * intros [[_ X]|[A [B C]]]; [contradiction|exact B]. }
+            * intro A. right. split; [exact (Nx2 x A)|split; [exact A|intros [_ X]; exact (N X)]].
+            * intros [[_ X]|[A [B C]]]; [exfalso; exact (ML X)|exact B]. }
       assert (CnsF_c : forall n, In n (cns gF c) <-> In n [m0; m1; m2; m3] /\ n <> n3).
-      { intro n. rewrite A_cns, Pos.eqb_refl. unfold Lc. rewrite Mr, Mq. fold n0 n1 n2 n3.
+      { intro n. rewrite A_cns, Pos.eqb_refl. rewrite Mr, Mq. fold n0 n1 n2 n3.
         assert (N3 : n0 <> n3 /\ n1 <> n3 /\ n2 <> n3).
         { inversion NDq as [|? ? A1 Q1']. inversion Q1' as [|? ? A2 Q2']. inversion Q2' as [|? ? A3 Q3'].
           cbn [In] in A1, A2, A3. repeat split; intro X; [apply A1|apply A2|apply A3]; rewrite X; auto. }
         destruct N3 as [N03 [N13 N23]]. cbn [In]. split.
         - intros [<-|[<-|[<-|[]]]]; auto 6.
-        - intros [[<-|[<-|[<-|[<-|[]]]]] N]; auto. exfalso. apply N. reflexivity. }
+        - intros [[<-|[<-|[<-|[<-|[]]]]] N]; auto; exfalso; apply N; reflexivity. }
       unfold S2. rewrite A_nlist, A_clist. split; [|split].
       * intros x Hx n Hn. apply in_snoc in Hx. destruct Hx as [Hx| ->].
         -- destruct (Pos.eq_dec x c) as [->|Nx].
            ++ apply CnsF_c in Hn. destruct Hn as [Hn _]. apply (Q1 c Hc). rewrite Ecns. exact Hn.
            ++ rewrite A_cns in Hn. apply Pos.eqb_neq in Nx. rewrite Nx in Hn. rewrite (agree_cns g g1 Ag x Hx) in Hn. exact (Q1 x Hx n Hn).
         -- rewrite A_cns in Hn. assert (X : Pos.eqb c2 c = false) by (apply Pos.eqb_neq; intro X; apply Ncc2; symmetry; exact X). rewrite X, E2ns in Hn.
-           apply ML2 in Hn. apply (Q1 c Hc). rewrite Ecns. apply Mq. cbn. fold n0 n2 n3. intuition.
+           pose proof (proj1 (ML2 n) Hn) as Hn'. apply (Q1 c Hc). rewrite Ecns. apply (proj2 (Mq n)). fold n0 n1 n2 n3. cbn [In]. destruct Hn' as [E|[E|E]]; rewrite E; tauto.
       * intros n Hn. rewrite A_ncs. unfold NC. rewrite fget_addall, (Base n Hn).
         assert (X : NoDup (if Pos.eqb n n3 then lremove (ncs g n3) c else ncs g n)) by (destruct (Pos.eqb n n3); [apply NoDup_lremove; apply (Q2 n3 Hcn3)|apply (Q2 n Hn)]).
         destruct (mem n L2); [apply NoDup_sadd|]; exact X.
       * intros n Hn x. rewrite (NcsF n Hn x), in_snoc. split.
-        -- intros [[-> Hl]|[N2 [Hx Nn]]].
-           ++ split; [auto|]. rewrite A_cns. assert (X : Pos.eqb c2 c = false) by (apply Pos.eqb_neq; intro X; apply Ncc2; symmetry; exact X). rewrite X, E2ns. exact Hl.
-           ++ apply (Q3 n Hn x) in Hx. destruct Hx as [Hx Hm]. split; [auto|]. destruct (Pos.eq_dec x c) as [->|Nx].
-              ** apply CnsF_c. rewrite Ecns in Hm. split; [exact Hm|]. intros ->. apply Nn. auto.
+        -- intros [[E Hl]|[N2 [Hx Nn]]].
+           ++ subst x. split; [right; reflexivity|]. rewrite A_cns. assert (X : Pos.eqb c2 c = false) by (apply Pos.eqb_neq; intro X; apply Ncc2; symmetry; exact X). rewrite X, E2ns. exact Hl.
+           ++ apply (Q3 n Hn x) in Hx. destruct Hx as [Hx Hm]. split; [left; exact Hx|]. destruct (Pos.eq_dec x c) as [E|Nx].
+              ** subst x. apply CnsF_c. rewrite Ecns in Hm. split; [exact Hm|]. intro E. apply Nn. split; [reflexivity|exact E].
               ** rewrite A_cns. apply Pos.eqb_neq in Nx. rewrite Nx, (agree_cns g g1 Ag x Hx). exact Hm.
-        -- intros [[Hx| ->] Hm].
-           ++ right. assert (N2 : x <> c2) by (intros ->; contradiction). split; [exact N2|]. destruct (Pos.eq_dec x c) as [->|Nx].
-              ** apply CnsF_c in Hm. destruct Hm as [Hm N3]. split; [apply (Q3 n Hn c); split; [exact Hc|rewrite Ecns; exact Hm]|intros [_ X]; contradiction].
+        -- intros [[Hx|E] Hm].
+           ++ right. assert (N2 : x <> c2) by (intro E; subst x; exact (Hc2 Hx)). split; [exact N2|]. destruct (Pos.eq_dec x c) as [E|Nx].
+              ** subst x. apply CnsF_c in Hm. destruct Hm as [Hm N3]. split; [apply (Q3 n Hn c); split; [exact Hc|rewrite Ecns; exact Hm]|intros [_ X]; exact (N3 X)].
               ** rewrite A_cns in Hm. pose proof Nx as Nx'. apply Pos.eqb_neq in Nx'. rewrite Nx', (agree_cns g g1 Ag x Hx) in Hm.
-                 split; [apply (Q3 n Hn x); auto|intros [X _]; contradiction].
-           ++ left. split; [reflexivity|]. rewrite A_cns in Hm. assert (X : Pos.eqb c2 c = false) by (apply Pos.eqb_neq; intro X; apply Ncc2; symmetry; exact X). rewrite X, E2ns in Hm. exact Hm.
-    + Show. admit_tail.
+                 split; [apply (Q3 n Hn x); split; [exact Hx|exact Hm]|intros [X _]; exact (Nx X)].
+           ++ subst x. left. split; [reflexivity|]. rewrite A_cns in Hm. assert (X : Pos.eqb c2 c = false) by (apply Pos.eqb_neq; intro X; apply Ncc2; symmetry; exact X). rewrite X, E2ns in Hm. exact Hm.
+    + (* S3a: columns and connections *)
+      destruct P3 as [Q1 [Q2 Q3]]. unfold S3a. rewrite A_klist, A_clist. split; [|split].
+      * intros k Hk. apply in_snoc in Hk. destruct Hk as [Hk|E].
+        -- destruct (Q1 k Hk) as [B0 [B1 Nq]]. destruct (Ends k Hk) as [E1 E2]. destruct (in_dec Pos.eq_dec k sc) as [Hs|Hs].
+           ++ destruct (E1 Hs) as [R0 [R1 Q]]. rewrite R0, R1. split; [apply Rc; exact B0|]. split; [apply Rc; exact B1|].
+              unfold rc. destruct Q as [[Qa Qb]|[Qa Qb]].
+              ** rewrite Qa, Pos.eqb_refl. destruct (Hn3c _ Qb) as [_ [N1 N2]]. pose proof N1 as N1'. apply Pos.eqb_neq in N1'. rewrite N1'. intro X. apply N2. symmetry. exact X.
+              ** rewrite Qa, Pos.eqb_refl. destruct (Hn3c _ Qb) as [_ [N1 N2]]. pose proof N1 as N1'. apply Pos.eqb_neq in N1'. rewrite N1'. exact N2.
+           ++ destruct (E2 Hs) as [R0 [R1 _]]. rewrite R0, R1. split; [apply in_snoc; left; exact B0|]. split; [apply in_snoc; left; exact B1|exact Nq].
+        -- subst k. rewrite A_k0, A_k1, Pos.eqb_refl. split; [apply in_snoc; left; exact Hc|]. split; [apply in_snoc; right; reflexivity|exact Ncc2].
+      * intros x Hx. rewrite A_cks, fget_fset. destruct (Pos.eqb_spec x c2) as [E|N2].
+        -- apply NoDup_sadd. rewrite fget_fset_neq by (intro X; apply Ncc2; symmetry; exact X). exact Cc2n.
+        -- rewrite fget_fset. destruct (Pos.eqb_spec x c) as [E|N1]; [apply NoDup_sadd; exact NDMc|].
+           rewrite (Cother x N1 N2), Ecks2. apply in_snoc in Hx. destruct Hx as [Hx|E]; [|contradiction].
+           rewrite (agree_cks g g1 Ag x Hx). exact (Q2 x Hx).
+      * intros x Hx k. rewrite (CksF x k), in_snoc. apply in_snoc in Hx.
+        assert (KnewEnds : k0 gF knew = c /\ k1 gF knew = c2) by (rewrite A_k0, A_k1, Pos.eqb_refl; split; reflexivity).
+        destruct KnewEnds as [Kn0 Kn1].
+        split.
+        -- intros [[Ex [[Hk Ns]|Ek]]|[[Ex [Hs|Ek]]|[N1 [N2 Hk]]]].
+           ++ subst x. destruct (Hcks k Hk) as [Hkl Hm]. split; [left; exact Hkl|]. destruct (Ends k Hkl) as [_ E2]. destruct (E2 Ns) as [R0 [R1 _]]. rewrite R0, R1. exact Hm.
+           ++ subst x k. split; [right; reflexivity|left; exact Kn0].
+           ++ subst x. apply Hsc in Hs as Hs'. destruct Hs' as [Hk _]. destruct (Hcks k Hk) as [Hkl Hm]. split; [left; exact Hkl|].
+              destruct (Ends k Hkl) as [E1 _]. destruct (E1 Hs) as [R0 [R1 Q]]. rewrite R0, R1. unfold rc.
+              destruct Q as [[Qa _]|[Qa _]]; rewrite Qa, Pos.eqb_refl; [left|right]; reflexivity.
+           ++ subst x k. split; [right; reflexivity|right; exact Kn1].
+           ++ destruct Hx as [Hx|E]; [|contradiction]. rewrite (agree_cks g g1 Ag x Hx) in Hk. apply (Q3 x Hx k) in Hk. destruct Hk as [Hkl Hm].
+              split; [left; exact Hkl|]. destruct (Ends k Hkl) as [E1 E2]. destruct (in_dec Pos.eq_dec k sc) as [Hs|Hs].
+              ** destruct (E1 Hs) as [R0 [R1 _]]. rewrite R0, R1. unfold rc. destruct Hm as [Hm|Hm]; rewrite Hm; pose proof N1 as N1'; apply Pos.eqb_neq in N1'; rewrite N1'; [left|right]; reflexivity.
+              ** destruct (E2 Hs) as [R0 [R1 _]]. rewrite R0, R1. exact Hm.
+        -- intros [[Hkl|Ek] Hm].
+           ++ destruct (Ends k Hkl) as [E1 E2]. destruct (Q1 k Hkl) as [B0 [B1 Nq]]. destruct (in_dec Pos.eq_dec k sc) as [Hs|Hs].
+              ** destruct (E1 Hs) as [R0 [R1 Q]]. rewrite R0, R1 in Hm. unfold rc in Hm.
+                 destruct Q as [[Qa Qb]|[Qa Qb]]; destruct (Hn3c _ Qb) as [Dl [N1 N2]]; pose proof N1 as N1'; apply Pos.eqb_neq in N1'; rewrite Qa, Pos.eqb_refl, N1' in Hm.
+                 --- destruct Hm as [Hm|Hm]; [right; left; split; [symmetry; exact Hm|left; exact Hs]|].
+                     right; right. split; [intro X; apply N1; rewrite Hm; exact X|]. split; [intro X; apply N2; rewrite Hm; exact X|].
+                     subst x. rewrite (agree_cks g g1 Ag _ Dl). apply (Q3 _ Dl k). split; [exact Hkl|right; reflexivity].
+                 --- destruct Hm as [Hm|Hm]; [|right; left; split; [symmetry; exact Hm|left; exact Hs]].
+                     right; right. split; [intro X; apply N1; rewrite Hm; exact X|]. split; [intro X; apply N2; rewrite Hm; exact X|].
+                     subst x. rewrite (agree_cks g g1 Ag _ Dl). apply (Q3 _ Dl k). split; [exact Hkl|left; reflexivity].
+              ** destruct (E2 Hs) as [R0 [R1 _]]. rewrite R0, R1 in Hm. destruct (Pos.eq_dec x c) as [E|N1].
+                 --- subst x. left. split; [reflexivity|]. left. split; [apply (Q3 c Hc k); split; [exact Hkl|exact Hm]|exact Hs].
+                 --- assert (N2 : x <> c2) by (intro E; subst x; destruct Hm as [Hm|Hm]; rewrite <- Hm in Hc2; contradiction).
+                     right; right. split; [exact N1|]. split; [exact N2|]. destruct Hx as [Hx|E]; [|contradiction].
+                     rewrite (agree_cks g g1 Ag x Hx). apply (Q3 x Hx k). split; [exact Hkl|exact Hm].
+           ++ subst k. rewrite Kn0, Kn1 in Hm. destruct Hm as [Hm|Hm]; subst x; [left; split; [reflexivity|right; reflexivity]|right; left; split; [reflexivity|right; reflexivity]].
+    + (* S4: the nodes of each connection belong to both of its columns *)
+      assert (CnsC2 : cns gF c2 = L2).
+      { rewrite A_cns. assert (X : Pos.eqb c2 c = false) by (apply Pos.eqb_neq; intro X; apply Ncc2; symmetry; exact X). rewrite X. exact E2ns. }
+      assert (CnsC : cns gF c = Lc) by (rewrite A_cns, Pos.eqb_refl; reflexivity).
+      assert (CnsO : forall x, In x (clist g) -> x <> c -> cns gF x = cns g x).
+      { intros x Hx Nx. rewrite A_cns. apply Pos.eqb_neq in Nx. rewrite Nx. exact (agree_cns g g1 Ag x Hx). }
+      assert (InLc : forall a, In a [m0; m1; m2; m3] -> a <> n3 -> In a Lc).
+      { intros a Ha Na. apply (proj2 (Mr a)). apply (proj1 (Mq a)) in Ha. fold n0 n1 n2 n3 in Ha |- *. cbn [In] in Ha |- *.
+        destruct Ha as [E|[E|[E|[E|[]]]]]; [tauto|tauto|tauto|exfalso; apply Na; symmetry; exact E]. }
+      assert (InL2 : forall a, In a [m0; m1; m2; m3] -> a <> n1 -> In a L2).
+      { intros a Ha Na. apply (proj2 (ML2 a)). apply (proj1 (Mq a)) in Ha. fold n0 n1 n2 n3 in Ha. cbn [In] in Ha.
+        destruct Ha as [E|[E|[E|[E|[]]]]]; [right; right; symmetry; exact E|exfalso; apply Na; symmetry; exact E|left; symmetry; exact E|right; left; symmetry; exact E]. }
+      assert (N3col : forall d, In d (cnb g c) -> In d n3cols <-> In n3 (cns g d)).
+      { intros d Hd. unfold n3cols. rewrite filter_In.
+        assert (Hdl : In d (clist g)).
+        { apply (s3b_ex g D1 c Hc d) in Hd. destruct Hd as [k [Hk J]]. destruct (s3_ends g P3 k Hk) as [B0 B1]. destruct J as [[_ J]|[J _]]; rewrite <- J; assumption. }
+        rewrite (agree_cns g g1 Ag d Hdl). split; [intros [_ X]; apply mem_In; exact X|intro X; split; [exact Hd|apply mem_In; exact X]]. }
+      intros k Hk. rewrite A_klist in Hk. apply in_snoc in Hk. destruct Hk as [Hk|E].
+      * rewrite A_kn. assert (Nk : Pos.eqb k knew = false) by (apply Pos.eqb_neq; intro E; subst k; contradiction). rewrite Nk, (agree_kn g g1 Ag k Hk).
+        destruct (P4 k Hk) as [a [b [Ekn [Nab [Ha0 [Hb0 [Ha1 Hb1]]]]]]]. exists a, b. split; [exact Ekn|]. split; [exact Nab|].
+        destruct (s3_ends g P3 k Hk) as [B0 B1]. pose proof (s3_neq g P3 k Hk) as Nq. destruct (Ends k Hk) as [E1 E2].
+        destruct (in_dec Pos.eq_dec k sc) as [Hs|Hs].
+        -- destruct (E1 Hs) as [R0 [R1 Q]]. rewrite R0, R1. unfold rc. destruct Q as [[Qa Qb]|[Qa Qb]].
+           ++ destruct (Hn3 _ Qb) as [Hnb [Hn3d [Hdl [N1 N2]]]]. pose proof N1 as N1'. apply Pos.eqb_neq in N1'. rewrite Qa, Pos.eqb_refl, N1'.
+              rewrite Qa, Ecns in Ha0, Hb0. rewrite CnsC2, (CnsO _ Hdl N1).
+              assert (Nn1 : ~ In n1 (cns g (k1 g k))) by (apply Pre; assumption).
+              split; [apply InL2; [exact Ha0|intro E; subst a; exact (Nn1 Ha1)]|]. split; [apply InL2; [exact Hb0|intro E; subst b; exact (Nn1 Hb1)]|]. split; assumption.
+           ++ destruct (Hn3 _ Qb) as [Hnb [Hn3d [Hdl [N1 N2]]]]. pose proof N1 as N1'. apply Pos.eqb_neq in N1'. rewrite Qa, Pos.eqb_refl, N1'.
+              rewrite Qa, Ecns in Ha1, Hb1. rewrite CnsC2, (CnsO _ Hdl N1).
+              assert (Nn1 : ~ In n1 (cns g (k0 g k))) by (apply Pre; assumption).
+              split; [exact Ha0|]. split; [exact Hb0|]. split; [apply InL2; [exact Ha1|intro E; subst a; exact (Nn1 Ha0)]|apply InL2; [exact Hb1|intro E; subst b; exact (Nn1 Hb0)]].
+        -- destruct (E2 Hs) as [R0 [R1 [U0 U1]]]. rewrite R0, R1.
+           assert (Side : forall e d, In e (clist g) -> In d (clist g) -> (e = c -> In d (cnb g c) /\ ~ In d n3cols) ->
+                          In a (cns g e) -> In b (cns g e) -> In a (cns g d) -> In b (cns g d) -> In a (cns gF e) /\ In b (cns gF e)).
+           { intros e d He Hd Hec Xa Xb Ya Yb. destruct (Pos.eq_dec e c) as [E|Ne]; [|rewrite (CnsO e He Ne); split; assumption].
+             subst e. destruct (Hec eq_refl) as [Hnb Hn3']. rewrite CnsC. rewrite Ecns in Xa, Xb.
+             assert (Nd3 : ~ In n3 (cns g d)) by (intro X; apply Hn3'; apply (N3col d Hnb); exact X).
+             split; apply InLc; try assumption; intro E; [subst a|subst b]; contradiction. }
+           assert (J01 : joined g (k0 g k) (k1 g k)) by (exists k; split; [exact Hk|left; split; reflexivity]).
+           assert (J10 : joined g (k1 g k) (k0 g k)) by (exists k; split; [exact Hk|right; split; reflexivity]).
+           destruct (Side (k0 g k) (k1 g k) B0 B1) as [Xa Xb]; try assumption.
+           { intro E. split; [apply (s3b_ex g D1 c Hc); rewrite <- E; exact J01|apply U0; exact E]. }
+           destruct (Side (k1 g k) (k0 g k) B1 B0) as [Ya Yb]; try assumption.
+           { intro E. split; [apply (s3b_ex g D1 c Hc); rewrite <- E; exact J10|apply U1; exact E]. }
+           split; [exact Xa|]. split; [exact Xb|]. split; assumption.
+      * subst k. rewrite A_kn, A_k0, A_k1, Pos.eqb_refl, CnsC, CnsC2.
+        assert (NDLc : NoDup (cns gF c)) by (rewrite CnsC; exact NDr).
+        assert (NDL2' : NoDup (cns gF c2)) by (rewrite CnsC2; exact NDL2).
+        symmetry in CNeq. destruct CN as [[a b]|]; rename CNeq into ECN.
+        -- exists a, b. split; [reflexivity|].
+           destruct (connection_nodes_ok gF c c2 a b NDLc NDL2' ECN) as [Nab [X1 [X2 [X3 X4]]]]. rewrite CnsC in X1, X2. rewrite CnsC2 in X3, X4. split; [exact Nab|]. split; [exact X1|]. split; [exact X2|]. split; [exact X3|exact X4].
+        -- exfalso. unfold connection_nodes in ECN. rewrite CnsC, CnsC2 in ECN. rewrite Lr in ECN. cbn [Nat.ltb Nat.leb] in ECN.
+           unfold first_shared in ECN. pose proof (find_none _ _ ECN _ Pr) as X. cbn [fst snd] in X.
+           rewrite (In_mem_true n2 L2), (In_mem_true n0 L2) in X by (apply ML2; tauto). discriminate X.
+    + (* S5p *)
+      intros x Hx. rewrite A_clist in Hx. apply in_snoc in Hx. destruct Hx as [Hx|E].
+      * destruct (Pos.eq_dec x c) as [E|Nx].
+        -- subst x. rewrite A_cns, Pos.eqb_refl. split; [exact NDr|rewrite Lr; apply le_n].
+        -- rewrite A_cns. apply Pos.eqb_neq in Nx. rewrite Nx, (agree_cns g g1 Ag x Hx). exact (P5 x Hx).
+      * subst x. rewrite A_cns. assert (X : Pos.eqb c2 c = false) by (apply Pos.eqb_neq; intro X; apply Ncc2; symmetry; exact X). rewrite X, E2ns.
+        split; [exact NDL2|rewrite LL2; apply le_n].
+  - (* ---------------- S3b: the neighbour sets ---------------- *)
+    destruct D1 as [Qn1 Qn2].
+    assert (SnSc : forall d, In d sn <-> exists k, In k sc /\ ((k0 g k = c /\ k1 g k = d) \/ (k1 g k = c /\ k0 g k = d))).
+    { intro d. rewrite Esn, <- Esc, in_map_iff. split.
+      - intros [k [Eo Hs]]. exists k. split; [exact Hs|]. apply Hsc in Hs as Hs'. destruct Hs' as [Hk _]. destruct (Hcks k Hk) as [Hkl _].
+        destruct (Ends k Hkl) as [E1 _]. destruct (E1 Hs) as [_ [_ Q]]. unfold other_end in Eo. rewrite (Eg1k0 k Hkl), (Eg1k1 k Hkl) in Eo.
+        destruct Q as [[Qa Qb]|[Qa Qb]].
+        + rewrite Qa, (notIn_mem_false _ _ Hc_n3) in Eo. left. split; [exact Qa|exact Eo].
+        + rewrite (In_mem_true _ _ Qb) in Eo. right. split; [exact Qa|exact Eo].
+      - intros [k [Hs Q]]. exists k. split; [|exact Hs]. apply Hsc in Hs as Hs'. destruct Hs' as [Hk _]. destruct (Hcks k Hk) as [Hkl _].
+        destruct (Ends k Hkl) as [E1 _]. destruct (E1 Hs) as [_ [_ Q']]. unfold other_end. rewrite (Eg1k0 k Hkl), (Eg1k1 k Hkl).
+        pose proof (s3_neq g P3 k Hkl) as Nq.
+        destruct Q as [[Qa Qb]|[Qa Qb]]; destruct Q' as [[Qa' Qb']|[Qa' Qb']].
+        + rewrite Qa, (notIn_mem_false _ _ Hc_n3). exact Qb.
+        + exfalso. apply Nq. rewrite Qa, Qa'. reflexivity.
+        + exfalso. apply Nq. rewrite Qa, Qa'. reflexivity.
+        + rewrite (In_mem_true _ _ Qb'). exact Qb. }
+    assert (Kc2 : forall q, In q (klist g) -> (k0 gF q = c2 \/ k1 gF q = c2) -> In q sc).
+    { intros q Hq X. destruct (in_dec Pos.eq_dec q sc) as [Hs|Hs]; [exact Hs|]. destruct (Ends q Hq) as [_ E2]. destruct (E2 Hs) as [Q0 [Q1 _]].
+      destruct (s3_ends g P3 q Hq) as [B0 B1]. rewrite Q0, Q1 in X. destruct X as [X|X]; rewrite X in *; contradiction. }
+    assert (SnIn : forall d, In d sn -> In d (clist g) /\ d <> c /\ d <> c2 /\ In d n3cols) by (intros d Hd; destruct (Hn3c d (Hsn d Hd)) as [A [B C]]; auto using Hsn).
+    assert (NbF : forall x d, In d (cnb gF x) <->
+              (x = c /\ ((In d (cnb g c) /\ ~ In d sn) \/ d = c2)) \/ (x = c2 /\ (In d sn \/ d = c)) \/ (x <> c /\ x <> c2 /\ In d (cnb g4 x))).
+    { intros x d. rewrite A_cnb, fget_fset. destruct (Pos.eqb_spec x c2) as [E|N2].
+      - subst x. rewrite In_sadd, fget_fset_neq by (intro X; apply Ncc2; symmetry; exact X). rewrite <- Ecnb4, Nc2. cbn [In].
+        split; [intros [[[]|X]|X]; right; left; (split; [reflexivity|tauto])|]. intros [[X _]|[[_ X]|[_ [X _]]]]; [exfalso; apply Ncc2; symmetry; exact X|tauto|exfalso; apply X; reflexivity].
+      - rewrite fget_fset. destruct (Pos.eqb_spec x c) as [E|N1].
+        + subst x. rewrite In_sadd, <- Ecnb4, MNc. split; [intros [X|X]; left; (split; [reflexivity|tauto])|]. intros [[_ X]|[[X _]|[X _]]]; [tauto|contradiction|exfalso; apply X; reflexivity].
+        + rewrite <- Ecnb4. split; [intro X; right; right; split; [exact N1|split; [exact N2|exact X]]|]. intros [[X _]|[[X _]|[_ [_ X]]]]; [contradiction|contradiction|exact X]. }
+    assert (Nb4 : forall x, In x (clist g) -> x <> c -> forall d, In d (cnb g4 x) <-> (In x sn /\ ((In d (cnb g x) /\ d <> c) \/ d = c2)) \/ (~ In x sn /\ In d (cnb g x))).
+    { intros x Hx Nx d. assert (N2 : x <> c2) by (intro E; subst x; contradiction).
+      destruct (in_dec Pos.eq_dec x sn) as [Hs|Hs].
+      - assert (ND3 : NoDup (cnb g3 x)) by (rewrite Ecnb3, (agree_cnb g g1 Ag x Hx); exact (Qn1 x Hx)).
+        destruct (Nd x Hs ND3) as [_ M]. rewrite M, Ecnb3, (agree_cnb g g1 Ag x Hx). tauto.
+      - rewrite (Nother x Nx N2 Hs), Ecnb3, (agree_cnb g g1 Ag x Hx). tauto. }
+    assert (KnewEnds : k0 gF knew = c /\ k1 gF knew = c2) by (rewrite A_k0, A_k1, Pos.eqb_refl; split; reflexivity).
+    destruct KnewEnds as [Kn0 Kn1].
+    (* joined after the split, in terms of the connections before *)
+    assert (JF : forall x d, joined gF x d <->
+              ((x = c /\ d = c2) \/ (x = c2 /\ d = c)) \/
+              exists k, In k (klist g) /\ ((k0 gF k = x /\ k1 gF k = d) \/ (k0 gF k = d /\ k1 gF k = x))).
+    { intros x d. unfold joined. rewrite A_klist. split.
+      - intros [k [Hk M]]. apply in_snoc in Hk. destruct Hk as [Hk|E]; [right; exists k; split; assumption|].
+        subst k. rewrite Kn0, Kn1 in M. left. destruct M as [[A B]|[A B]]; [left|right]; split; symmetry; assumption.
+      - intros [M|[k [Hk M]]]; [exists knew; split; [apply in_snoc; right; reflexivity|rewrite Kn0, Kn1; destruct M as [[A B]|[A B]]; subst; tauto]|].
+        exists k. split; [apply in_snoc; left; exact Hk|exact M]. }
+    unfold S3b. rewrite A_clist. split.
+    + (* no repetition *)
+      intros x Hx. rewrite A_cnb, fget_fset. destruct (Pos.eqb_spec x c2) as [E|N2].
+      * apply NoDup_sadd. rewrite fget_fset_neq by (intro X; apply Ncc2; symmetry; exact X). rewrite <- Ecnb4. exact Nc2n.
+      * rewrite fget_fset. destruct (Pos.eqb_spec x c) as [E|N1]; [apply NoDup_sadd; rewrite <- Ecnb4; exact NDNc|].
+        apply in_snoc in Hx. destruct Hx as [Hx|E]; [|contradiction]. rewrite <- Ecnb4.
+        destruct (in_dec Pos.eq_dec x sn) as [Hs|Hs].
+        -- assert (ND3 : NoDup (cnb g3 x)) by (rewrite Ecnb3, (agree_cnb g g1 Ag x Hx); exact (Qn1 x Hx)). exact (proj1 (Nd x Hs ND3)).
+        -- rewrite (Nother x N1 N2 Hs), Ecnb3, (agree_cnb g g1 Ag x Hx). exact (Qn1 x Hx).
+    + (* exactness *)
+      assert (ScEnds : forall k, In k sc -> In k (klist g) /\ exists e, In e sn /\ e <> c /\ e <> c2 /\ In e (clist g) /\
+                ((k0 g k = c /\ k1 g k = e /\ k0 gF k = c2 /\ k1 gF k = e) \/ (k1 g k = c /\ k0 g k = e /\ k0 gF k = e /\ k1 gF k = c2))).
+      { intros k Hs. apply Hsc in Hs as Hs'. destruct Hs' as [Hk _]. destruct (Hcks k Hk) as [Hkl _]. split; [exact Hkl|].
+        destruct (Ends k Hkl) as [E1 _]. destruct (E1 Hs) as [R0 [R1 Q]]. unfold rc in R0, R1.
+        destruct Q as [[Qa Qb]|[Qa Qb]]; destruct (Hn3c _ Qb) as [Dl [N1 N2]]; pose proof N1 as N1'; apply Pos.eqb_neq in N1'.
+        - rewrite Qa, Pos.eqb_refl in R0. rewrite N1' in R1.
+          exists (k1 g k). split; [apply SnSc; exists k; split; [exact Hs|left; split; [exact Qa|reflexivity]]|]. split; [exact N1|]. split; [exact N2|]. split; [exact Dl|].
+          left. split; [exact Qa|]. split; [reflexivity|]. split; assumption.
+        - rewrite N1' in R0. rewrite Qa, Pos.eqb_refl in R1.
+          exists (k0 g k). split; [apply SnSc; exists k; split; [exact Hs|right; split; [exact Qa|reflexivity]]|]. split; [exact N1|]. split; [exact N2|]. split; [exact Dl|].
+          right. split; [exact Qa|]. split; [reflexivity|]. split; assumption. }
+      assert (Unsw : forall k, In k (klist g) -> ~ In k sc -> k0 gF k = k0 g k /\ k1 gF k = k1 g k /\
+                (k0 g k = c -> ~ In (k1 g k) sn) /\ (k1 g k = c -> ~ In (k0 g k) sn)).
+      { intros k Hk Hs. destruct (Ends k Hk) as [_ E2]. destruct (E2 Hs) as [R0 [R1 [U0 U1]]]. split; [exact R0|]. split; [exact R1|].
+        split; intros E X; [apply (U0 E)|apply (U1 E)]; apply Hsn; exact X. }
+      assert (FromJ : forall x d k, In k (klist g) -> k0 gF k = x -> k1 gF k = d -> In d (cnb gF x) /\ In x (cnb gF d)).
+      { intros x d k Hk Ex Ed. destruct (in_dec Pos.eq_dec k sc) as [Hs|Hs].
+        - destruct (ScEnds k Hs) as [_ [e [Hes [Ne [Ne2 [Hel Q]]]]]].
+          assert (Ie : In c2 (cnb gF e)).
+          { apply NbF. right; right. split; [exact Ne|]. split; [exact Ne2|]. apply (Nb4 e Hel Ne). left. split; [exact Hes|right; reflexivity]. }
+          assert (Ic2 : In e (cnb gF c2)) by (apply NbF; right; left; split; [reflexivity|left; exact Hes]).
+          destruct Q as [[_ [_ [R0 R1]]]|[_ [_ [R0 R1]]]]; rewrite R0 in Ex; rewrite R1 in Ed; subst x d; split; assumption.
+        - destruct (Unsw k Hk Hs) as [R0 [R1 [U0 U1]]]. rewrite R0 in Ex. rewrite R1 in Ed.
+          destruct (s3_ends g P3 k Hk) as [B0 B1]. pose proof (s3_neq g P3 k Hk) as Nq. rewrite Ex in B0. rewrite Ed in B1.
+          assert (Jxd : joined g x d) by (exists k; split; [exact Hk|left; split; assumption]).
+          assert (Jdx : joined g d x) by (exists k; split; [exact Hk|right; split; assumption]).
+          assert (One : forall y z, In y (clist g) -> joined g y z -> (y = c -> ~ In z sn) -> (z = c -> ~ In y sn) -> In z (cnb gF y)).
+          { intros y z Hy J Uy Uz. apply NbF. destruct (Pos.eq_dec y c) as [E|Ny].
+            - subst y. left. split; [reflexivity|]. left. split; [apply (Qn2 c Hc z); exact J|apply Uy; reflexivity].
+            - right; right. assert (Ny2 : y <> c2) by (intro E; subst y; contradiction). split; [exact Ny|]. split; [exact Ny2|].
+              apply (Nb4 y Hy Ny). destruct (in_dec Pos.eq_dec y sn) as [Hys|Hys].
+              + left. split; [exact Hys|]. left. split; [apply (Qn2 y Hy z); exact J|]. intro E. exact (Uz E Hys).
+              + right. split; [exact Hys|apply (Qn2 y Hy z); exact J]. }
+          split.
+          + apply (One x d B0 Jxd); intro E; [rewrite <- Ed; apply U0; rewrite Ex; exact E|rewrite <- Ex; apply U1; rewrite Ed; exact E].
+          + apply (One d x B1 Jdx); intro E; [rewrite <- Ex; apply U1; rewrite Ed; exact E|rewrite <- Ed; apply U0; rewrite Ex; exact E]. }
+      assert (Lift : forall x d, In x (clist g) -> joined g x d -> (forall k, In k sc -> ~ ((k0 g k = x /\ k1 g k = d) \/ (k0 g k = d /\ k1 g k = x))) -> joined gF x d).
+      { intros x d Hx [k [Hk M]] Ns. apply JF. right. exists k. split; [exact Hk|].
+        assert (Hs : ~ In k sc) by (intro Hs; exact (Ns k Hs M)). destruct (Unsw k Hk Hs) as [R0 [R1 _]]. rewrite R0, R1. exact M. }
+      intros x Hx d. split.
+      * (* a recorded neighbour is connected *)
+        intro Hd. apply NbF in Hd. destruct Hd as [[Ex [[Hd Nd_]|Ed]]|[[Ex [Hd|Ed]]|[N1 [N2 Hd]]]].
+        -- subst x. apply (Lift c d Hc); [apply (Qn2 c Hc d); exact Hd|]. intros k Hs M. apply Nd_.
+           destruct (ScEnds k Hs) as [_ [e [Hes [Ne [_ [_ Q]]]]]].
+           destruct Q as [[Q0 [Q1 _]]|[Q0 [Q1 _]]]; destruct M as [[M0 M1]|[M0 M1]]; try (rewrite <- M1, Q1; exact Hes); try (rewrite <- M0, Q1; exact Hes); exfalso; apply Ne; congruence.
+        -- subst x d. apply JF. left. left. split; reflexivity.
+        -- subst x. apply SnSc in Hd. destruct Hd as [k [Hs M]]. destruct (ScEnds k Hs) as [Hkl [e [_ [_ [_ [_ Q]]]]]].
+           apply JF. right. exists k. split; [exact Hkl|]. pose proof (s3_neq g P3 k Hkl) as Nq.
+           destruct Q as [[Q0 [Q1 [R0 R1]]]|[Q0 [Q1 [R0 R1]]]]; destruct M as [[M0 M1]|[M0 M1]].
+           ++ left. split; [exact R0|rewrite R1, <- Q1; exact M1].
+           ++ exfalso. apply Nq. rewrite Q0, M0. reflexivity.
+           ++ exfalso. apply Nq. rewrite Q0, M0. reflexivity.
+           ++ right. split; [rewrite R0, <- Q1; exact M1|exact R1].
+        -- subst x d. apply JF. left. right. split; reflexivity.
+        -- apply in_snoc in Hx. destruct Hx as [Hx|E]; [|contradiction].
+           apply (Nb4 x Hx N1 d) in Hd. destruct Hd as [[Hxs [[Hd Ndc]|Ed]]|[Hxs Hd]].
+           ++ apply (Lift x d Hx); [apply (Qn2 x Hx d); exact Hd|]. intros k Hs M.
+              destruct (ScEnds k Hs) as [_ [e [_ [_ [_ [_ Q]]]]]].
+              destruct Q as [[Q0 _]|[Q0 _]]; destruct M as [[M0 M1]|[M0 M1]]; first [apply N1; congruence|apply Ndc; congruence].
+           ++ subst d. apply SnSc in Hxs. destruct Hxs as [k [Hs M]]. destruct (ScEnds k Hs) as [Hkl [e [_ [_ [_ [_ Q]]]]]].
+              apply JF. right. exists k. split; [exact Hkl|]. pose proof (s3_neq g P3 k Hkl) as Nq.
+              destruct Q as [[Q0 [Q1 [R0 R1]]]|[Q0 [Q1 [R0 R1]]]]; destruct M as [[M0 M1]|[M0 M1]].
+              ** right. split; [exact R0|rewrite R1, <- Q1; exact M1].
+              ** exfalso. apply Nq. rewrite Q0, M0. reflexivity.
+              ** exfalso. apply Nq. rewrite Q0, M0. reflexivity.
+              ** left. split; [rewrite R0, <- Q1; exact M1|exact R1].
+           ++ apply (Lift x d Hx); [apply (Qn2 x Hx d); exact Hd|]. intros k Hs M.
+              destruct (ScEnds k Hs) as [_ [e [Hes [_ [_ [_ Q]]]]]].
+              destruct Q as [[Q0 [Q1 _]]|[Q0 [Q1 _]]]; destruct M as [[M0 M1]|[M0 M1]];
+                first [apply N1; congruence|apply Hxs; replace x with e by congruence; exact Hes].
+      * (* a connected column is a recorded neighbour *)
+        intro J. apply JF in J. destruct J as [[[Ex Ed]|[Ex Ed]]|[k [Hk M]]].
+        -- subst x d. apply NbF. left. split; [reflexivity|right; reflexivity].
+        -- subst x d. apply NbF. right; left. split; [reflexivity|right; reflexivity].
+        -- destruct M as [[M0 M1]|[M0 M1]]; [exact (proj1 (FromJ x d k Hk M0 M1))|exact (proj2 (FromJ d x k Hk M0 M1))].
+  - (* ---------------- S5n: the layer counts ---------------- *)
+    destruct A_lay as [Ll [_ [_ [Lb _]]]].
+    assert (CL : forall s_, count_layers gF s_ = count_layers g s_) by (intro s_; unfold count_layers, lb; rewrite Ll, Lb; reflexivity).
+    intros x Hx. rewrite A_clist in Hx. apply in_snoc in Hx. rewrite CL, A_cs, A_cl. destruct Hx as [Hx|E].
+    + assert (N2 : Pos.eqb x c2 = false) by (apply Pos.eqb_neq; intro E; subst x; contradiction).
+      rewrite N2, (agree_cs g g1 Ag x Hx), (agree_cl g g1 Ag x Hx). exact (D2 x Hx).
+    + subst x. rewrite Pos.eqb_refl. exact Enl'.
 Qed.
